@@ -10,7 +10,7 @@ import os, sys, json, random, subprocess, re, shutil, glob
 from fractions import Fraction
 from common import *
 
-N_THEOREMS = 50
+N_THEOREMS = 51
 
 # ------------------------------------------------------------------------------------------- cases
 # A case is a dict; numbers are ints k meaning k/8, or 'I' / '-I'.
@@ -904,7 +904,7 @@ def run(ck):
     else:
         proof_ok, failing = False, ['translator: ' + (out + err).strip()[-400:]]
         ck.cov.update({'obligations': N_THEOREMS, 'discharged': 0, 'checker_cmd': 'translators/gen_easy_c08.py failed (construct it cannot translate)'})
-    ck.cov['generated_from_source'] = 'lean/MpVerif/Gen/C08Easy.lean: 40 semantic definitions (NLProblemBuilder::AddVariables and NLReader::ReadNumArgs + MIN_ITER_ARGS of the reader from include/mp/nl-reader.h, StringFileWriter destructor condition, CSR row-walk components of four functions, reverse-mapping loop, VPerm/VPermInv fields, PermuteVars loop body, ComputeObjValue terms, FeedObjExpression coefficient, NItemsMax, OnSuffix / OnPrimalSolution / FeedSuffixes index arithmetic) + 33 function skeletons, regenerated on every run by translators/gen_easy_c08.py'
+    ck.cov['generated_from_source'] = 'lean/MpVerif/Gen/C08Easy.lean: 42 semantic definitions (NLProblemBuilder::AddVariables, NLReader::ReadNumArgs + MIN_ITER_ARGS and BasicProblem::AddVars of the reader side from include/mp/nl-reader.h, StringFileWriter destructor condition, CSR row-walk components of four functions, reverse-mapping loop, VPerm/VPermInv fields, PermuteVars loop body, ComputeObjValue terms, FeedObjExpression coefficient, NItemsMax, OnSuffix / OnPrimalSolution / FeedSuffixes index arithmetic) + 33 function skeletons, regenerated on every run by translators/gen_easy_c08.py'
     ck.log('proof stage: ok=%s failing=%s' % (proof_ok, failing[:10]))
     if ck.tier == 'thorough' and proof_ok:
         badm = ck.leanchecker(['MpVerif.C08.Props'])
